@@ -145,6 +145,9 @@ UNITS["C03"] = [
          under_contract=["frag_merge", "lemma_sql_merges_iff_overlap_or_adjacent", "lemma_interval_is_one_range"], vacuity=["frag_merge"],
          assumptions=["the DELETE … RETURNING returns exactly the stored rows satisfying its WHERE clause (SQLite); stored rows are well-ordered and non-negative",
                       "SQL WHERE fragment translated by vx/sqlpred.py (a bare column in a condition is read as `!= 0`)"]),
+    dict(kind="verus", name="c03_triggers", template="specs/c03_triggers.vrs",
+         under_contract=["frag_after_commit", "frag_apply_guard", "frag_startup"], vacuity=["frag_after_commit", "frag_apply_guard", "frag_startup"],
+         assumptions=["contract of RangeInclusiveSet::gaps / Iterator::count (validated by depcheck, bounded)"]),
     dict(kind="verus", name="c03_batch", template="specs/c03_batch.vrs",
          under_contract=["frag_seen_in_batch"], vacuity=["frag_seen_in_batch"],
          assumptions=["RangeInclusiveMap<version, Option<PartialVersion>> stand-in (lookup per version); Iterator::all/any over version / seq ranges replaced by contract stand-ins that keep the real closures"]),
